@@ -514,8 +514,9 @@ def finish(prop, mod, tier, seed, results, wall):
   }
   if errors:
     ev['coverage']['harness_errors'] = errors[:5]
-  os.makedirs(os.path.join(ROOT, 'evidence'), exist_ok=True)
-  with open(os.path.join(ROOT, 'evidence', f'{prop}.json'), 'w') as f:
+  evdir = os.environ.get('VERIF_EVIDENCE_DIR') or os.path.join(ROOT, 'evidence')
+  os.makedirs(evdir, exist_ok=True)
+  with open(os.path.join(evdir, f'{prop}.json'), 'w') as f:
     json.dump(ev, f, indent=1, default=_default)
     f.write('\n')
 
